@@ -179,3 +179,124 @@ func PolicyModel(q *RefQuote, p *PolicyFields) PolicyVerdict {
 
 // BytesEq reports equality treating nil and empty alike.
 func BytesEq(a, b []byte) bool { return bytes.Equal(a, b) }
+
+// ---------------------------------------------------------------------------
+// TCB status reference model (C04), from the property statement.
+// ---------------------------------------------------------------------------
+
+// TcbOutcome is the model's decision.
+type TcbOutcome struct {
+	Accept        bool
+	Reason        string
+	PlatformLevel int // index of the selected platform level, -1 if none
+	ModuleLevel   int // index of the selected module level, -1 if none / not applicable
+	ModuleBranch  bool
+}
+
+func hexEqFold(a, b string) bool {
+	if len(a) != len(b) {
+		return false
+	}
+	for i := 0; i < len(a); i++ {
+		x, y := a[i], b[i]
+		if x >= 'A' && x <= 'Z' {
+			x += 'a' - 'A'
+		}
+		if y >= 'A' && y <= 'Z' {
+			y += 'a' - 'A'
+		}
+		if x != y {
+			return false
+		}
+	}
+	return true
+}
+
+// TcbModel evaluates Intel's TCB-level selection for a world's platform, TD body and TCB Info.
+func TcbModel(w *World) TcbOutcome {
+	out := TcbOutcome{PlatformLevel: -1, ModuleLevel: -1}
+	d := &w.TcbInfo
+	q := w.Q
+	if !hexEqFold(d.Fmspc, w.FmspcHex()) {
+		out.Reason = "fmspc differs"
+		return out
+	}
+	if !hexEqFold(d.PceID, Hex(w.Sgx.PceID[:])) {
+		out.Reason = "pceId differs"
+		return out
+	}
+	if !bytes.Equal(d.Mrsigner, q.MrSignerSeam[:]) {
+		out.Reason = "mrsignerseam differs"
+		return out
+	}
+	if len(d.Mask) != 8 || len(d.Attributes) != 8 {
+		out.Reason = "attributes / mask size"
+		return out
+	}
+	for i := 0; i < 8; i++ {
+		if q.SeamAttr[i]&d.Mask[i] != d.Attributes[i] {
+			out.Reason = "masked seam attributes differ"
+			return out
+		}
+	}
+	out.ModuleBranch = q.TeeTcbSvn[1] != 0
+	start := 0
+	if out.ModuleBranch {
+		start = 2
+	}
+	for li, l := range d.Levels {
+		ok := l.PceSvn <= w.Sgx.PceSvn
+		for i := 0; i < 16 && ok; i++ {
+			if l.Sgx[i] > w.Sgx.Comp[i] {
+				ok = false
+			}
+		}
+		for i := start; i < 16 && ok; i++ {
+			if l.Tdx[i] > q.TeeTcbSvn[i] {
+				ok = false
+			}
+		}
+		if ok {
+			out.PlatformLevel = li
+			break
+		}
+	}
+	if out.PlatformLevel < 0 {
+		out.Reason = "no platform level matches"
+		return out
+	}
+	if d.Levels[out.PlatformLevel].Status != "UpToDate" {
+		out.Reason = "platform level is " + d.Levels[out.PlatformLevel].Status
+		return out
+	}
+	if out.ModuleBranch {
+		want := "TDX_" + Hex([]byte{q.TeeTcbSvn[1]})
+		found := -1
+		for i, id := range d.Identities {
+			if id.ID == want {
+				found = i
+				break
+			}
+		}
+		if found < 0 {
+			out.Reason = "module identity " + want + " missing"
+			return out
+		}
+		for li, l := range d.Identities[found].Levels {
+			if l.Isvsvn <= uint32(q.TeeTcbSvn[0]) {
+				out.ModuleLevel = li
+				break
+			}
+		}
+		if out.ModuleLevel < 0 {
+			out.Reason = "no module level matches"
+			return out
+		}
+		if st := d.Identities[found].Levels[out.ModuleLevel].Status; st != "UpToDate" {
+			out.Reason = "module level is " + st
+			return out
+		}
+	}
+	out.Accept = true
+	return out
+}
